@@ -20,6 +20,7 @@ structure St where
   revoked : List String := []
   trust : TrustStore := []
   lists : List (String × String × List Nat) := []
+  kinds : List (String × String) := []
 
 def optInt (j : Json) (k : String) : Option Int :=
   match j.getObjVal? k with
@@ -112,8 +113,9 @@ def envOf (st : St) (op : Json) : Env :=
     parseDID := lookupTable op "dids"
     didOfURL := lookupTable op "urls" }
 
-def cryptoOf (facts : List (Key × Bytes × Sig)) (cps : List (Proof × String)) : Crypto :=
-  { canon := fun c => c.cd
+def cryptoOfK (kinds : List (String × String)) (facts : List (Key × Bytes × Sig)) (cps : List (Proof × String)) : Crypto :=
+  { keyKind := fun k => match kinds.find? (fun p => p.1 == k) with | some p => p.2 | none => "P-256"
+    canon := fun c => c.cd
     canonVP := fun vp => vp.cd
     canonProof := fun p => match cps.find? (fun q => q.1 == p) with | some q => q.2 | none => "?|"
     digest := id
@@ -141,7 +143,10 @@ def step (st : St) (j : Json) : St × List String :=
                assertion := (jArr v "assertion").map (fun p => match p with
                  | Json.arr #[Json.str a, Json.str b] => (a, b) | _ => ("", "")) } : Ver))))
       | _ => []
-    ({ st with hist := hist, asOf := jInt j "asOf" }, ["world"])
+    let kinds := match j.getObjVal? "keyKinds" with
+      | .ok (.obj kvs) => kvs.toList.filterMap (fun (k, v) => match v with | Json.str s => some (k, s) | _ => none)
+      | _ => st.kinds
+    ({ st with hist := hist, asOf := jInt j "asOf", kinds := kinds }, ["world"])
   | "reset" => ({}, ["reset"])
   | "statuslist" =>
     let ls := st.lists.filter (fun x => x.1 != jStr j "url")
@@ -169,7 +174,7 @@ def step (st : St) (j : Json) : St × List String :=
     -- sqlWallet.List on the issuer node: its own revocation store / managed status lists come with the op
     let docs := jArr j "creds"
     let all := docs.map sigFacts
-    let P := cryptoOf (all.foldr (fun x acc => x.1 ++ acc) []) (all.foldr (fun x acc => x.2 ++ acc) [])
+    let P := cryptoOfK st.kinds (all.foldr (fun x acc => x.1 ++ acc) []) (all.foldr (fun x acc => x.2 ++ acc) [])
     let E : Env := { envOf st j with
       revoked := fun id => (jStrs j "revoked").contains id
       statusList := fun url => match (jArr j "lists").find? (fun l => jStr l "url" == url) with
@@ -180,7 +185,7 @@ def step (st : St) (j : Json) : St × List String :=
   | "wallet-present" =>
     let docs := jArr j "creds"
     let all := docs.map sigFacts
-    let P := cryptoOf (all.foldr (fun x acc => x.1 ++ acc) []) (all.foldr (fun x acc => x.2 ++ acc) [])
+    let P := cryptoOfK st.kinds (all.foldr (fun x acc => x.1 ++ acc) []) (all.foldr (fun x acc => x.2 ++ acc) [])
     let r := walletValidate cfg P (envOf st j) (jInt j "created") (docs.map parseCred)
     (st, [match r with | .ok _ => "ok" | .err _ => "err:invalid-credential" | .panic _ => "panic"])
   | "issue" =>
@@ -193,7 +198,7 @@ def step (st : St) (j : Json) : St × List String :=
                             subjects := u.subjects, shapeOK := u.shapeOK, claims := u.claims }
       let st' := { st with asOf := jInt j "asOf" }
       let E := envOf st' j
-      let P := cryptoOf [] []
+      let P := cryptoOfK st.kinds [] []
       let r := issue P E (fun _ _ => "sig") (fun _ => jBool j "allDefined") (fun _ => "raw") (parseFormat (jStr j "fmt")) t "u" (jInt j "now")
       (st, [match r with | .ok _ => "ok" | .err e => "err:" ++ e | .panic _ => "panic"])
     | _ => (st, ["bad-op:issue"])
@@ -203,8 +208,8 @@ def step (st : St) (j : Json) : St × List String :=
     | .ok d =>
       let c := parseCred d
       let (facts, cps) := sigFacts d
-      let r := if jStr j "via" == "api" then apiVerifyVC cfg (cryptoOf facts cps) (envOf st j) (optBool j "option") c
-               else verify cfg (cryptoOf facts cps) (envOf st j) (jBool j "allowUntrusted") (jBool j "checkSig") (optInt j "at") c
+      let r := if jStr j "via" == "api" then apiVerifyVC cfg (cryptoOfK st.kinds facts cps) (envOf st j) (optBool j "option") c
+               else verify cfg (cryptoOfK st.kinds facts cps) (envOf st j) (jBool j "allowUntrusted") (jBool j "checkSig") (optInt j "at") c
       (st, [showRes r])
     | _ => (st, ["unparseable"])
   | "vp" =>
@@ -215,8 +220,8 @@ def step (st : St) (j : Json) : St × List String :=
       let all := (sigFacts d) :: (jArr d "vcs").map sigFacts
       let facts := all.foldr (fun x acc => x.1 ++ acc) []
       let cps := all.foldr (fun x acc => x.2 ++ acc) []
-      let r := if jStr j "via" == "api" then apiVerifyVP cfg (cryptoOf facts cps) (envOf st j) (optBool j "option") (optInt j "at") vp
-               else verifyVP cfg (cryptoOf facts cps) (envOf st j) (jBool j "checkSig") (jBool j "allowUntrusted") (optInt j "at") vp
+      let r := if jStr j "via" == "api" then apiVerifyVP cfg (cryptoOfK st.kinds facts cps) (envOf st j) (optBool j "option") (optInt j "at") vp
+               else verifyVP cfg (cryptoOfK st.kinds facts cps) (envOf st j) (jBool j "checkSig") (jBool j "allowUntrusted") (optInt j "at") vp
       (st, [match r with | .ok _ => s!"ok n={vp.vcs.length}" | _ => showRes r])
     | _ => (st, ["unparseable"])
   | o => (st, ["bad-op:" ++ o])
